@@ -186,3 +186,179 @@ func ZZC05Reject() {
 	zzReach("rejected")
 	zzWitness("end")
 }
+
+// ---- missing return / unreachable code over generated bodies ----
+
+// A function body is a tree of returns, plain statements, if / else-if /
+// else chains, loops with breaks; it is accepted exactly when no statement
+// follows one that always terminates, and the body of a function with a
+// result type always terminates (docs/spec.md, "Return" and "Break").
+type zzRetNode struct {
+	kind     string // ret | fall | if | while | break
+	branches [][]*zzRetNode
+	hasElse  bool
+}
+
+func zzRetGenBlock(depth, maxDepth int, inLoop bool) []*zzRetNode {
+	n := 1
+	if depth == 0 {
+		n = 1 + zzChoice("rlen", 2)
+	} else if rb := zzParam("RB", 0); rb > 0 {
+		n = 1 + zzChoice("rlen", 1+rb)
+	}
+	var out []*zzRetNode
+	for i := 0; i < n; i++ {
+		kinds := []string{"ret", "fall"}
+		if depth < maxDepth {
+			kinds = append(kinds, "if", "while")
+		}
+		if inLoop {
+			kinds = append(kinds, "break")
+		}
+		nd := &zzRetNode{kind: kinds[zzChoice("rkind", len(kinds))]}
+		switch nd.kind {
+		case "if":
+			k := 1 + zzChoice("rbranches", zzParam("RK", 3))
+			nd.hasElse = zzChoice("relse", 2) == 1
+			if nd.hasElse {
+				k++
+			}
+			for b := 0; b < k; b++ {
+				nd.branches = append(nd.branches, zzRetGenBlock(depth+1, maxDepth, inLoop))
+			}
+		case "while":
+			nd.branches = [][]*zzRetNode{zzRetGenBlock(depth+1, maxDepth, true)}
+		}
+		out = append(out, nd)
+	}
+	return out
+}
+
+func zzRetTerminates(b []*zzRetNode) bool {
+	if len(b) == 0 {
+		return false
+	}
+	return zzRetNodeTerminates(b[len(b)-1])
+}
+
+func zzRetNodeTerminates(n *zzRetNode) bool {
+	switch n.kind {
+	case "ret", "break":
+		return true
+	case "if":
+		if !n.hasElse {
+			return false
+		}
+		for _, br := range n.branches {
+			if !zzRetTerminates(br) {
+				return false
+			}
+		}
+		return true
+	}
+	return false
+}
+
+// zzRetUnreachable: some statement follows one that always terminates.
+func zzRetUnreachable(b []*zzRetNode) bool {
+	for i, n := range b {
+		if i < len(b)-1 && zzRetNodeTerminates(n) {
+			return true
+		}
+		for _, br := range n.branches {
+			if zzRetUnreachable(br) {
+				return true
+			}
+		}
+	}
+	return false
+}
+
+func zzRetRender(sb *strings.Builder, b []*zzRetNode, ind int, ctr *int, value bool) {
+	pad := strings.Repeat("    ", ind)
+	for _, n := range b {
+		*ctr++
+		switch n.kind {
+		case "ret":
+			if value {
+				sb.WriteString(pad + "return " + zzN(float64(*ctr)) + "\n")
+			} else {
+				sb.WriteString(pad + "return\n")
+			}
+		case "break":
+			sb.WriteString(pad + "break\n")
+		case "fall":
+			sb.WriteString(pad + "print \"s" + zzN(float64(*ctr)) + "\"\n")
+		case "while":
+			sb.WriteString(pad + "while c\n")
+			zzRetRender(sb, n.branches[0], ind+1, ctr, value)
+			sb.WriteString(pad + "end\n")
+		case "if":
+			for i, br := range n.branches {
+				switch {
+				case i == 0:
+					sb.WriteString(pad + "if c\n")
+				case n.hasElse && i == len(n.branches)-1:
+					sb.WriteString(pad + "else\n")
+				default:
+					sb.WriteString(pad + "else if c\n")
+				}
+				zzRetRender(sb, br, ind+1, ctr, value)
+			}
+			sb.WriteString(pad + "end\n")
+		}
+	}
+}
+
+// ZZC05Returns: every body up to the bounds, as a function with a result
+// type, as a procedure and as an event handler.
+func ZZC05Returns() {
+	D := zzParam("RD", 2)
+	body := zzRetGenBlock(0, D, false)
+	form := zzChoice("rform", 3) // 0 func with result, 1 procedure, 2 handler
+	var sb strings.Builder
+	ctr := 0
+	sb.WriteString("c := false\nprint \"start\"\nif c\n    print c\nend\n")
+	switch form {
+	case 0:
+		sb.WriteString("func f:num\n")
+		zzRetRender(&sb, body, 1, &ctr, true)
+		sb.WriteString("end\nprint (f)\n")
+	case 1:
+		sb.WriteString("func f\n")
+		zzRetRender(&sb, body, 1, &ctr, false)
+		sb.WriteString("end\nf\n")
+	case 2:
+		sb.WriteString("on animate\n")
+		zzRetRender(&sb, body, 1, &ctr, false)
+		sb.WriteString("end\n")
+	}
+	src := sb.String()
+	want := !zzRetUnreachable(body)
+	if form == 0 && !zzRetTerminates(body) {
+		want = false // missing return
+	}
+	p := &zzPlat{}
+	ev := NewEvaluator(p)
+	err := ev.Run(src)
+	var perrs parser.Errors
+	parseRejected := err != nil && errors.As(err, &perrs)
+	if parseRejected == want {
+		msg := ""
+		if err != nil {
+			msg = err.Error()
+		}
+		zzLog("C05 returns: want accepted=" + map[bool]string{true: "yes", false: "no"}[want] + "\n" + src + msg)
+	}
+	zzAssert(parseRejected != want, "C05 returns: a body is rejected exactly when a statement follows one that always terminates or a function with a result type can reach its end (missing return)")
+	if parseRejected {
+		zzAssert(len(perrs) >= 1 && strings.HasPrefix(perrs[0].Error(), "line "), "C05 returns: rejection is a non-empty list of located errors")
+		zzAssert(len(p.trace) == 0, "C05 returns: nothing of a rejected program is executed")
+		zzReach("returns-rejected")
+	} else {
+		zzAssert(err == nil, "C05 returns: an accepted body runs")
+		zzAssert(len(p.trace) >= 1 && p.trace[0] == "print:start\n", "C05 returns: an accepted program performs its effects")
+		zzReach("returns-accepted")
+	}
+	zzWitness("end")
+}
